@@ -1256,10 +1256,147 @@ def s_log_isolation(E, tier):
                    n, key='foreign-messages' if foreign else 'own-messages-missing')
 
 
+def s_name_access(E, tier):
+    """C10: every way of naming a task on a chain (`in`, [], attribute, get_task, graph queries by name) agrees with the one
+    resolution rule: unique match, or the less-nested form of all matches, else not found"""
+    from taskchain import Config, Task
+    from contracts import names as N
+
+    def mk(name, group=None):
+        meta = {'name': name}
+        if group:
+            meta['task_group'] = group
+
+        class T(Task):
+            Meta = type('Meta', (), meta)
+
+            def run(self) -> str:
+                return self.fullname
+        T.__name__ = f'T_{group}_{name}'.replace(':', '_')
+        return T
+    A, GA, NA, B = mk('a'), mk('a', 'g'), mk('a', 'n'), mk('b', 'g')
+    layouts = [
+        {None: [GA]}, {'n': [A], 'x::n': [A]}, {'n': [A], 'x': [NA]}, {None: [GA], 'g': [A]}, {'n': [GA, B]}, {'x::n': [A]},
+        {None: [A], 'n': [A]}, {'n': [GA], 'm': [GA]},
+    ]
+    for lay in layouts:
+        d = E.dir()
+        E.tried += 1
+        with quiet():
+            try:
+                uses = []
+                top = {'tasks': lay.get(None, [])}
+                cfgs = []
+                for ns, classes in lay.items():
+                    if ns is None:
+                        continue
+                    cfgs.append(Config(d / 'data', name=f'c_{ns.replace("::", "_")}', namespace=ns, data={'tasks': classes}))
+                top['uses'] = cfgs
+                ch = Config(d / 'data', name='top', data=top).chain()
+            except Exception as e:
+                E.viol('C10', 'access', f'layout {lay}: chain construction failed: {type(e).__name__}: {e}', str(lay), key='layout-error')
+                continue
+        full = list(ch.tasks.keys())
+        queries = set(full)
+        for f in full:
+            ns = f.split('::')[:-1]
+            local = f.split('::')[-1]
+            nm = local.split(':')[-1]
+            queries |= {local, nm, '::'.join(ns + [nm]), '::'.join(ns[-1:] + [nm]), '::'.join(ns[-1:] + [local])}
+        queries |= {'zzz', 'n::zzz'}
+        for q in sorted(queries):
+            M = [t for t in full if N.name_matches(q, t, True)]
+            best = [c for c in M if all(N.less_nested(c, t) for t in M)]
+            want = M[0] if len(M) == 1 else (best[0] if len(M) > 1 and best else None)
+            try:
+                got = ch[q].fullname if ch[q] is not None else None
+                got_name = [k for k, t in ch.tasks.items() if t is ch[q]]
+                got = got_name[0] if got_name and want not in got_name else (want if got_name else None)
+            except KeyError:
+                got = None
+            if got != want:
+                E.viol('C10', 'access', f'tasks {full}: chain[{q!r}] gives {got}, the resolution rule gives {want}', (full, q), key='getitem')
+            inn = q in ch
+            if inn != (want is not None):
+                E.viol('C10', 'access', f'tasks {full}: ({q!r} in chain) is {inn} but chain[{q!r}] ' + ('resolves to ' + want if want else 'does not resolve'), (full, q), key='contains')
+            try:
+                gt = ch.get_task(q)
+                gt_ok = True
+            except ValueError:
+                gt_ok = False
+            except KeyError:
+                gt_ok = None
+            if gt_ok != (want is not None):
+                E.viol('C10', 'access', f'tasks {full}: get_task({q!r}) ' + ('succeeds' if gt_ok else 'fails') + ' but the name ' + ('resolves to ' + want if want else 'does not resolve'),
+                       (full, q), key='get_task')
+
+
+def s_query_history(E, tier):
+    """C08: required_tasks / dependent_tasks are the closures of the declared relation whatever was asked before"""
+    from taskchain import Config
+    from contracts.pipelines import lib
+    down = {'data:src': NAMES[1:], 'data:dbl': NAMES[2:], 'model:agg:total': NAMES[3:], 'mem': NAMES[4:], 'report': []}
+    up = {n: [m for m in NAMES if n in down[m]] for n in NAMES}
+    d = E.dir()
+    with quiet():
+        ch = Config(d / 'data', E.write(d, 'c', cfg(n=2))).chain()
+        for rnd in range(3):
+            order = list(NAMES)
+            E.r.shuffle(order)
+            for n in order:
+                E.tried += 1
+                for inc in (E.r.random() < 0.5, False, True, False):
+                    got = sorted(t.fullname for t in ch.dependent_tasks(n, include_self=inc))
+                    want = sorted(down[n] + ([n] if inc else []))
+                    if got != want:
+                        E.viol('C08', 'closure_stable', f'dependent_tasks({n!r}, include_self={inc}) = {got}, declared closure {want} (after earlier queries)', (n, inc), key='dependent-history')
+                    got = sorted(t.fullname for t in ch.required_tasks(n, include_self=inc))
+                    want = sorted(up[n] + ([n] if inc else []))
+                    if got != want:
+                        E.viol('C08', 'closure_stable', f'required_tasks({n!r}, include_self={inc}) = {got}, declared closure {want} (after earlier queries)', (n, inc), key='required-history')
+            if rnd == 0:
+                ch.force('data:dbl')
+
+
+def s_no_shared_values(E, tier):
+    """C09: configs built from one context share no mutable values with it or with each other"""
+    import copy
+    from taskchain import Config
+    d = E.dir()
+    E.tried += 1
+    inner = E.write(d, 'inner', {'tasks': TASKS, 'n': 1, 'tags': ['file']})
+    top = E.write(d, 'top', {'uses': [f'{inner} as a', f'{inner} as b']})
+    ctx = {'tags': ['global', {'k': [1]}], 'for_namespaces': {'a': {'tags': ['for-a', {'k': [1]}]}, 'b': {'total_offset': 5}}}
+    ctx0 = copy.deepcopy(ctx)
+    with quiet():
+        c1 = Config(d / 'data', top, context=ctx, global_vars={'X': 'one'})
+        ch1 = c1.chain()
+        ta = ch1['a::model:agg:total'].params.tags if hasattr(ch1['a::model:agg:total'].params, 'tags') else ch1['a::model:agg:total'].params['tags']
+        tb = ch1['b::model:agg:total'].params['tags']
+    if ctx != ctx0:
+        E.viol('C09', 'no_sharing', f'building a config changed the caller\'s context dict: {ctx} (was {ctx0})', 'ctx', key='caller-context-mutated')
+    with quiet():
+        try:
+            ta.append('MUTATED')
+            ta[1]['k'].append(99)
+        except Exception:
+            pass
+        c2 = Config(d / 'data2', top, context=ctx, global_vars={'X': 'two'})
+        ch2 = c2.chain()
+        ta2 = ch2['a::model:agg:total'].params['tags']
+        tb2 = ch2['b::model:agg:total'].params['tags']
+    if ctx != ctx0:
+        E.viol('C09', 'no_sharing', f'changing a value seen by a task changed the caller\'s context dict: {ctx["for_namespaces"]["a"]}', 'ctx', key='task-value-aliases-context')
+    if ta2 != ['for-a', {'k': [1]}]:
+        E.viol('C09', 'no_sharing', f'a second config tree built from the same context sees {ta2!r} for a::tags (the first tree\'s task value was changed in place)', 'second', key='second-tree-sees-mutation')
+    if tb2 != ['global', {'k': [1]}] or tb != ['global', {'k': [1]}]:
+        E.viol('C09', 'no_sharing', f'b::tags = {tb!r} / {tb2!r}; the global context entry is [\'global\', {{\'k\': [1]}}]', 'b', key='other-namespace-affected')
+
+
 SCENARIOS = {
     'C01': [s_values_and_history, s_namespaces, s_ns_prefix], 'C02': [s_same_location, s_different_location, s_process_independent, s_default_not_persisted], 'C03': [s_different_location, s_injective],
-    'C04': [s_values_and_history, s_lazy_inputs], 'C07': [s_forcing, s_delete_exact], 'C08': [s_graph, s_namespaces, s_pattern_exact], 'C09': [s_contexts, s_namespaces, s_values_and_history, s_ns_prefix],
-    'C10': [s_namespaces], 'C11': [s_contexts, s_ctx_uses_string], 'C13': [s_multichain], 'C18': [s_run_records, s_log_isolation], 'C19': [s_test_helpers], 'C20': [s_migration],
+    'C04': [s_values_and_history, s_lazy_inputs], 'C07': [s_forcing, s_delete_exact], 'C08': [s_graph, s_namespaces, s_pattern_exact, s_query_history], 'C09': [s_contexts, s_namespaces, s_values_and_history, s_ns_prefix, s_no_shared_values],
+    'C10': [s_namespaces, s_name_access], 'C11': [s_contexts, s_ctx_uses_string], 'C13': [s_multichain], 'C18': [s_run_records, s_log_isolation], 'C19': [s_test_helpers], 'C20': [s_migration],
 }
 
 
